@@ -82,7 +82,13 @@ pub fn sys_scalars(tier: Tier, access: Access) -> Vec<Layout> {
             let mut fields = Vec::new();
             for (k, lo) in positions(b, w).iter().enumerate() {
                 if w == 1 {
-                    fields.push(fld(&format!("b{}", k), *lo, 1, FieldTy::Bool, access));
+                    let mut bf = fld(&format!("b{}", k), *lo, 1, FieldTy::Bool, access);
+                    if k % 2 == 1 {
+                        // the same bool written as a one-bit range: bits(n..=n)
+                        bf.kw_bit = false;
+                        bf.ranges = vec![Rng::new(*lo, *lo)];
+                    }
+                    fields.push(bf);
                 }
                 fields.push(fld(&format!("f{}", k), *lo, w, uty(w), access));
             }
@@ -836,6 +842,15 @@ pub fn corpus(prop: &str, tier: Tier, seed: u64) -> Vec<(usize, Layout)> {
             p.access = AccessMode::AllR;
             p.overlap = false;
             v.extend(random(&p, seed, 2, nrand / 2));
+            // no fields at all: `{:?}` is just the struct name
+            for b in [8u32, 32, 128, 7, 65] {
+                let mut l = lay(b, vec![]);
+                l.debug = true;
+                v.push(l.clone());
+                l.default = Some(DefaultDecl { value: mask(b) / 3, named_const: false, radix: 16, const_name: None });
+                l.debug_first = b % 2 == 0;
+                v.push(l);
+            }
             // a second readable view of exactly the same bits (alias under another name / as raw integer)
             let n0 = v.len();
             for k in (0..n0).step_by(3) {
@@ -927,6 +942,35 @@ pub fn enum_corpus(tier: Tier, seed: u64) -> Vec<(usize, EnumDecl)> {
                 if variants.iter().all(|x| x.cfg == Cfg::Never) {
                     continue;
                 }
+                v.push(EnumDecl { name: "E".into(), bits: n, variants, exhaustive: Exh::Conditional, colon: false, qualified: false, args_swapped: false });
+            }
+        }
+    }
+    // `exhaustive = conditional` keeps its Result-returning API whatever is listed: all 2^n values without any
+    // cfg, all of them under enabled cfgs; and (native u8 storage, 256 variants) one of them compiled out
+    for n in [1u32, 2, 3, 4, 6, 8] {
+        let m = mask(n);
+        for flavour in 0..2 {
+            let variants: Vec<Variant> = (0..=m)
+                .map(|d| Variant {
+                    name: format!("V{}", d),
+                    disc: Disc::Lit { value: d, radix: if d % 5 == 0 { 16 } else { 10 }, underscore: false },
+                    cfg: if flavour == 1 && d % 2 == 0 { Cfg::Always } else { Cfg::None },
+                    style: if flavour == 1 { (d % 4) as u8 } else { 0 },
+                })
+                .collect();
+            v.push(EnumDecl { name: "E".into(), bits: n, variants, exhaustive: Exh::Conditional, colon: n % 2 == 0, qualified: false, args_swapped: false });
+        }
+        if n == 8 {
+            for off in [0u128, 7, m / 2, m] {
+                let variants: Vec<Variant> = (0..=m)
+                    .map(|d| Variant {
+                        name: format!("V{}", d),
+                        disc: Disc::Lit { value: d, radix: 10, underscore: false },
+                        cfg: if d == off { Cfg::Never } else { Cfg::None },
+                        style: if d == off { (off % 4) as u8 } else { 0 },
+                    })
+                    .collect();
                 v.push(EnumDecl { name: "E".into(), bits: n, variants, exhaustive: Exh::Conditional, colon: false, qualified: false, args_swapped: false });
             }
         }
